@@ -83,7 +83,7 @@ def mutate(rng, b):
     return bytes(b)
 
 
-def directed(rng, v, siblings=(), budget=24):
+def directed(rng, v, siblings=(), budget=24, sentinels=24):
     """Structured malformations that byte-level mutation rarely reaches: a field emptied (an alphanumeric run removed, a
     32-bit word or a single byte zeroed), a small code walked through 0..15 at a position, a digit run inflated beyond the
     interpreter's integer conversion limit, an absurdly large number in a date / number position, a count field zeroed, and
@@ -100,6 +100,17 @@ def directed(rng, v, siblings=(), budget=24):
             out.append(v[:a] + b'7' * 5000 + v[b:])
             out.append(v[:a] + b'99999999999999999999' + v[b:])
         out.append(b'99999999999999999999')
+        # JSON values: every member replaced by values of other types and by the numbers a converter may choke on
+        if v.lstrip()[:1] == b'{':
+            try:
+                import json
+                doc = json.loads(v.decode('ascii'))
+            except ValueError:
+                doc = None
+            if isinstance(doc, dict):
+                for k in list(doc)[:6]:
+                    for alt in ('NaN', 'Infinity', '-Infinity', '1e999', '-1', '"x"', '[]', '{}', 'null', 'true', '1.5', '99999999999999999999'):
+                        out.append(('{%s}' % ', '.join('%s: %s' % (json.dumps(n), alt if n == k else json.dumps(x)) for n, x in doc.items())).encode('ascii'))
         out.append(v.replace(b'\r\n', b'\n'))
         out.append(v.rstrip(b'\r\n') if v.rstrip(b'\r\n') != v else v + b'\n')
     else:
@@ -131,7 +142,14 @@ def directed(rng, v, siblings=(), budget=24):
     for s in list(siblings)[:4]:
         out.append(s)
     rng.shuffle(out)
-    return out[:budget]
+    out = out[:budget]
+    if not text:
+        # the all-ones sentinel of a 32- or 64-bit field (timestamps, lengths) at the offsets of the first bytes; these do not
+        # compete with the other malformations for the budget
+        spots = [(ln, i) for ln in (8, 4) for i in range(0, max(0, min(len(v), 128) - ln + 1))]
+        for ln, i in (spots if sentinels is None else rng.sample(spots, min(len(spots), sentinels))):
+            out.append(v[:i] + b'\xff' * ln + v[i + ln:])
+    return out
 
 
 def inflate_counts(rng, v, limit):
